@@ -55,4 +55,10 @@ VARIANTS = [
     dict(name='benign-threshold-inline', expect='silent', edits=[
         dict(file=MB, old="        bond_distance = 0.5 * (VDW_RADII[element1] + VDW_RADII[element2])\n        if dist <= bond_distance * fudge and not graph.has_edge(node_idx1, node_idx2):",
              new="        if not graph.has_edge(node_idx1, node_idx2) and fudge * ((VDW_RADII[element2] + VDW_RADII[element1]) * 0.5) >= dist:")]),
+    dict(name='helper get_attrs drops missing attributes', expect='fire', key='HELPER-contract|vermouth/graph_utils.py|get_attrs', edits=[
+        dict(file='vermouth/graph_utils.py', old="    return tuple(node.get(attr) for attr in attrs)", new="    return tuple(node[attr] for attr in attrs if attr in node)")]),
+    dict(name='helper collect_residues keyed without the defaults insertion code', expect='fire', key='HELPER-contract|vermouth/graph_utils.py|collect_residues', edits=[
+        dict(file='vermouth/graph_utils.py', old="def collect_residues(graph, attrs=('chain', 'resid', 'resname', 'insertion_code')):", new="def collect_residues(graph, attrs=('chain', 'resid', 'resname')):")]),
+    dict(name='benign helper get_attrs through a list', expect='silent', edits=[
+        dict(file='vermouth/graph_utils.py', old="    return tuple(node.get(attr) for attr in attrs)", new="    values = [node.get(attr) for attr in attrs]\n    return tuple(values)")]),
 ]
